@@ -237,6 +237,14 @@ def run(ctx):
                 exts.append(c)
             else:
                 good = False
+    if not fors:
+        # flattened form: acc = [f(m, r) for r in <requests> for m in r.messages] - request by request, message by message
+        for x in cms.body:
+            if isinstance(x, ast.Assign) and isinstance(x.value, ast.ListComp) and len(x.value.generators) == 2:
+                g0, g1 = x.value.generators
+                if not g0.ifs and not g1.ifs and unparse(g0.iter) == cms.params[0] and isinstance(g0.target, ast.Name) and \
+                        unparse(g1.iter) == "%s.messages" % g0.target.id and names_in(x.value.elt) & names_in(g1.target):
+                    good, exts = True, [x]
     r.check(good and exts, "%s#extend-in-order" % cms.qname,
             "message list is not built by extending, request by request, with each request's messages in order",
             where(cms, cms.node))
